@@ -366,6 +366,71 @@ def r9f(fb, rep):
         rep.anchor_lost(R, "Blackhole construction")
 
 
+def r9h(fb, rep):
+    """R9h — registering as a waiter on a lazy value that another thread is evaluating never replaces an earlier registration.
+    The Blackhole state carries one slot `Option<(oneshot::Sender, Shared<Receiver>)>`; every waiting `force` clones the shared
+    receiver and the evaluating thread fires the one sender when it is done.  If a second waiter overwrites the slot, the first
+    waiter's sender is dropped: its receiver resolves (cancelled) while the cell is still a Blackhole and its continuation
+    reaches `unreachable!()` — the force neither waits nor returns the value.  Rule: in `lazy::force` every overwriting write of
+    the slot (`*slot = ..`, `Option::insert/replace/take/set`) lies behind the edge on which the slot was observed empty
+    (`is_none()` true / `is_some()` false / the None edge of a discriminant switch); `get_or_insert*` are fine."""
+    R = "R9h"
+    rep.rule(R, "a waiter registration on a Blackhole never overwrites an existing registration")
+    b = fb.body("gluon_vm::lazy::force")
+    if b is None:
+        rep.anchor_lost(R, "gluon_vm::lazy::force")
+        return
+    def is_slot_ref(l):
+        t = b.local_tstr(l)
+        return t.startswith("&mut core::option::Option<(futures_channel::oneshot::Sender<")
+    slots = [i for i in range(len(b.d["locals"])) if is_slot_ref(i)]
+    # only the slot inside the Blackhole state (a reborrow of a place with a Blackhole downcast)
+    bh = []
+    for i, j, pl, rv, ln in b.assigns():
+        if not pl[1] and pl[0] in slots and rv[0] == "ref" and any(isinstance(p, list) and p[0] == "d" and p[1] == "Blackhole" for p in rv[2][1]):
+            bh.append(pl[0])
+    if not bh:
+        rep.anchor_lost(R, "the waiter slot of Lazy_::Blackhole in lazy::force")
+        return
+    n = 0
+    for sl in bh:
+        der = flow.derived_locals(b, sl)
+        writes = []
+        for i, blk in enumerate(b.blocks):
+            if blk.get("cl"):
+                continue
+            for st in blk["s"]:
+                if st[0] == "=" and st[1][0] in der and st[1][1] == ["*"]:
+                    writes.append((i, "assignment", st[3]))
+        for c in b.calls():
+            last = c.res.rsplit("::", 1)[-1]
+            if c.res.startswith("core::option::Option::<T>::") and last in ("insert", "replace", "take") and c.args and op_place(c.args[0]) is not None and op_place(c.args[0])[0] in der:
+                writes.append((c.bb, "Option::%s" % last, c.line))
+        # the observation "slot is empty"
+        empties = []
+        for c in b.calls():
+            last = c.res.rsplit("::", 1)[-1]
+            if c.res.startswith("core::option::Option::<T>::") and last in ("is_none", "is_some") and c.args:
+                src = flow.sources(b, c.args[0], depth=6)
+                p = op_place(c.args[0])
+                if p is not None and (p[0] in der or any(x in der for x in flow.derived_locals(b, sl)) and any(
+                        rv[0] == "ref" and rv[2][0] in der for i2, j2, pl2, rv, ln2 in b.assigns() if not pl2[1] and pl2[0] == p[0])):
+                    for bb, srcs, true_t, false_t in flow.bool_switches(b):
+                        if c.dest is not None and ("local", c.dest[0]) in srcs or any(s_[0] == "call" and s_[1] == c.res for s_ in srcs) and bb in b.reachable(c.bb):
+                            empties.append((bb, true_t if last == "is_none" else false_t))
+        n += 1
+        if not writes:
+            rep.ok(R, "lazy::force registers waiters without an overwriting write of the slot")
+            continue
+        for wbb, kind, ln in writes:
+            if any(flow.only_via_edge_threaded(b, wbb, e) for e in empties):
+                rep.ok(R, "lazy::force: the %s of the waiter slot (line %s) lies behind the slot-is-empty edge" % (kind, ln))
+            else:
+                rep.violation(R, "waiter-slot-overwritten", "lazy::force writes the Blackhole's waiter slot (%s) on a path on which the slot may already hold another waiter's channel: the earlier "
+                              "waiter's sender is dropped, its force resumes while the value is still being evaluated" % kind, "%s:%s" % (b.file, ln))
+    rep.floor(R, "Blackhole waiter slots examined", n, 1)
+
+
 def run(fb, rep, tier, cfg):
     rep.explanation = (
         "Static analysis of gluon_vm's MIR (coroutines in their pre-state-transform form). R9a: the coroutine started after "
@@ -384,4 +449,5 @@ def run(fb, rep, tier, cfg):
     r9d(fb, rep)
     r9e(fb, rep)
     r9f(fb, rep)
+    r9h(fb, rep)
     e4.cells(fb, rep, rule="R9d")
